@@ -434,7 +434,7 @@ package trie
 //@   property C01 C03 C10 C13 C14
 //@   opaque wf_iprefix wf_lprefix wf_tree wf_core
 //@   requires wf_query(st) && len(key) <= 100000000
-//@   before "l := int32(8 * len(key))" use core_facts(st)
+//@   before "qr := &querySession{" use core_facts(st)
 //@   loop 1 invariant 0 <= eqID && int(eqID) < nN(st)
 //@   loop 1 invariant 0 <= i && i <= l
 //@   loop 1 invariant i%4 == 0
@@ -1105,8 +1105,8 @@ func lemmaTypedGettersAgreeOnFound(st *SlimTrie, key string) (bool, bool, bool, 
 //@   loop 1 invariant qr != nil && qr.key == key && qr.keyBitLen == l && int(l) == 8*len(key) && ns == st.inner
 //@   loop 1 invariant (lID == -1 || (0 <= lID && int(lID) < nN(st))) && (rID == -1 || (0 <= rID && int(rID) < nN(st)))
 //@   loop 1 decreases nN(st) - int(eqID)
-//@   before "l := int32(8 * len(key))" use core_facts(st)
-//@   before "l := int32(8 * len(key))" use inners_facts(st)
+//@   before "qr := &querySession{" use core_facts(st)
+//@   before "qr := &querySession{" use inners_facts(st)
 //@   after getNode#1 use node_facts(st, int(qr.ithInner))
 //@   after getNode#1 use node_parent(st, int(eqID))
 //@   after getNode#1 use walk_leaf(st, key, int(eqID), int(i))
